@@ -703,7 +703,8 @@ class Alignments(Wordlist):
 
                             d['ID'].append(seq)
                             d['taxa'].append(self[seq][self._colIdx])
-                            d['seqs'].append(this_string)
+                            # the sequences are the segments without the gaps of a stored alignment
+                            d['seqs'].append([s for s in this_string if s != '-'])
                             d['alignment'].append(this_string)
 
                         d['alignment'] = normalize_alignment(d['alignment'])
